@@ -14,10 +14,10 @@ use std::io::{BufRead, Write};
 use chumsky::error::Rich;
 use chumsky::prelude::*;
 
-use crate::ast::*;
-use crate::build::*;
-use crate::run::{mapped_tokens, run_one};
-use crate::val::*;
+use chumsky_verif_harness::ast::*;
+use chumsky_verif_harness::build::*;
+use chumsky_verif_harness::run::{mapped_tokens, run_one};
+use chumsky_verif_harness::val::*;
 
 pub enum NG {
     Lift(G),
@@ -154,7 +154,7 @@ fn run_case<'src>(
 }
 
 pub fn main() {
-    crate::run::install_panic_hook();
+    chumsky_verif_harness::run::install_panic_hook();
     let stdin = std::io::stdin();
     let stdout = std::io::stdout();
     let mut w = std::io::BufWriter::new(stdout.lock());
